@@ -214,7 +214,8 @@ INVS = ["AlphabetOK", "RoundTripInv", "RefuseInv", "ExportedInv", "SupportedEnab
 
 
 def cfg(kinds, N, maxlen=1, toks="TokAll", strtoks="NoStr", mc=2, fmts="FmtAll", maxterms=1, coefs="CoefSmall", emit=True, minlen=0):
-    s = "CONSTANTS M = %d\nN = %d\nMinLen = %d\nMaxLen = %d\nToks <- %s\nStrToks <- %s\nMaxCtrl = %d\nFmts <- %s\nOpFmts <- OpFmtAll\n" % (
+    N = {1: "W1", 2: "W12", 3: "W123"}.get(N, N)
+    s = "CONSTANTS M = %d\nWidths <- %s\nMinLen = %d\nMaxLen = %d\nToks <- %s\nStrToks <- %s\nMaxCtrl = %d\nFmts <- %s\nOpFmts <- OpFmtAll\n" % (
         M, N, minlen, maxlen, toks, strtoks, mc, fmts)
     s += "Kinds <- %s\nMaxTerms = %d\nCoefs <- %s\nEmit = %s\nINIT Init\nNEXT Next\n" % (
         kinds, maxterms, coefs, "TRUE" if emit else "FALSE")
@@ -237,6 +238,12 @@ def plan(chk):
     ]
     runs.append(dict(name="singles_qasm", cfg=cfg("KCircuit", 3, 1, "TokAll", mc=1, fmts="FmtQasm"), workers=2))
     runs.append(dict(name="pairs_qasm", cfg=cfg("KCircuit", 2 if q else 3, 2, "TokSmall", mc=1, fmts="FmtQasm"), workers=2))
+    # wide registers (widths 9..101): multi-digit qubit indices in targets and controls, many idle trailing qubits
+    runs.append(dict(name="wide_singles", cfg=cfg("KCircuit", "WWide", 1, "TokOne", mc=1 if q else 2, fmts="FmtAll3"), workers=4))
+    if q:   # two controls with multi-digit indices: only IonQ has them
+        runs.append(dict(name="wide_singles_2c", cfg=cfg("KCircuit", "WWide2", 1, "TokOne", mc=2, fmts="FmtIonq"), workers=2))
+    runs.append(dict(name="wide_sim", cfg=cfg("KCircuit", "WWide", 3, "TokSmall", mc=1, fmts="FmtAll3", minlen=2), workers=1,
+                     simulate="num=%d" % (200 if q else 3000), depth=6, seed=seed + 307))
     for fi, fmt in enumerate(("FmtIonq", "FmtPq", "FmtQasm")):
         runs.append(dict(name="sim_" + fmt, cfg=cfg("KCircuit", 3, 3, "TokAll", mc=2, fmts=fmt, minlen=2), workers=1,
                          simulate="num=%d" % (1000 if q else 12000), depth=6, seed=seed + 101 + fi))
@@ -409,7 +416,10 @@ def run(chk):
     accepted = [c["ctl"] + "/" + c["kind"] for c in ctl if cv[c["id"]] in OK_VERDICTS | DRIFT_VERDICTS]
     chk.part("negative_controls", corrupted=len(ctl), rejected=len(ctl) - len(accepted),
              kinds=sorted(set(c["kind"] + ":" + c["ctl"] for c in ctl)))
-    if accepted or len(ctl) < 15:
+    any_bad = any(verdicts[j["id"]] not in OK_VERDICTS | DRIFT_VERDICTS for j in jobs
+                  if not (j["kind"] == "circuit" and j["fmt"] == "projectq" and any(g["name"] == "MEASURE" for g in j["gates"])))
+    # (too few controls is a vacuity alarm on a healthy tree only)
+    if accepted or (len(ctl) < 15 and not any_bad):
         raise tlc.TLCError("binding failure: corrupted records accepted %s (controls built: %d)" % (accepted, len(ctl)))
     for r in results:
         chk.add_tlc(r)
@@ -460,6 +470,7 @@ def run(chk):
     if oo:
         chk.sample({"op": {k: oo[-1][k] for k in ("fmt", "n", "terms", "out")}, "verdict": verdicts[oo[-1]["id"]]})
     chk.cov["rule"] = ("TLC explores C17RoundTrip: every single gate x placement x control sequence x parameter token x width, "
+                       "wide registers (widths 9..101, multi-digit indices in targets and controls), "
                        "every ordered pair over a reduced alphabet, random circuits of <= 3 gates (-simulate), every gate x flag x "
                        "index spelling for repr, operators of <= 2 terms exhaustively and <= 5 terms sampled; each emitted input is "
                        "run through the real translators and the observation is judged by TLC (C17Trace)")
